@@ -43,6 +43,14 @@ def gen_history(rng, name, focus="mixed", cp=64, max_updates=2, pb=None, force_s
         return set(i for i, v in enumerate(q["h"]) if isinstance(v, str) or abs(Fr(v)) > Fr(10) ** 30)
     zeroed = infrows(pb)          # rows of G the solver has overwritten with zeros
     for u in range(nupd):
+        if rng.random() < 0.12:
+            # repeated setup() on the same solver object (same or different dimensions)
+            pb = G.gen_problem(rng, n=(pb["n"] if rng.random() < 0.6 else None), p=(pb["p"] if rng.random() < 0.5 else None), m=(pb["m"] if rng.random() < 0.5 else None))
+            ops.append(G.op_setup(pb)); pbs[opno] = pb; opno += 1
+            tags.append("resetup:n%dp%dm%d" % (pb["n"], pb["p"], pb["m"]))
+            zeroed = infrows(pb)
+            if rng.random() < 0.7: ops.append(G.op_solve()); pbs[opno] = pb; opno += 1
+            continue
         names = set(k for k in ["P", "c", "A", "b", "G", "h", "lb", "ub"] if rng.random() < 0.35)
         pb, names = G.perturb(rng, pb, names)
         if pb["m"] > 0:
